@@ -17,7 +17,7 @@ SPEC = dict(
     theorems=["C30_safe", "C30_never_partial", "C30_final_gone_or_full", "C30_refetch_completes",
               "C30_safe_history", "C30_faultState_mem", "C30_code_shape", "C30_orig_uses_partial", "C30_orig_stuck"],
     gen=[gen_fetch_steps],
-    steps=[dict(bin="sv_c30", area="c30", n_quick=60, n_thorough=1300, corpus="corpus/c30.txt",
+    steps=[dict(bin="sv_c30", area="c30", n_quick=120, n_thorough=4000, corpus="corpus/c30.txt",
                 dist_keys=("kind", "mode", "lock", "ref", "n", "class", "implnext", "state"),
                 nontrivial=lambda case, impl, kv: case.startswith("fault "),
                 timeout=2400)],
